@@ -232,7 +232,6 @@ func (s *Sim) writeAtomic(n *Node, snap *pb.Snapshot, ents []*pb.Entry, hs *pb.H
 		s.Stats.inc("snap.installed")
 		n.SM.reset(snap.GetMetadata().GetIndex(), leU64(snap.GetData()), confFromCS(snap.GetMetadata().GetConfState()))
 		n.SM.DurableApplied = snap.GetMetadata().GetIndex()
-		n.Disk.SyncedCommit = max(n.Disk.SyncedCommit, snap.GetMetadata().GetIndex())
 	}
 	if !s.writeEntries(n, ents) {
 		return false
@@ -440,7 +439,7 @@ func (s *Sim) service(n *Node) bool {
 			case len(n.SelfQ[1]) > 0:
 				s.selfStep(n, 1)
 			case len(n.AppendQ) > 0:
-				s.appendStep(n, true)
+				s.appendStep(n, !n.Opts.LazySync)
 			case len(n.ApplyQ) > 0:
 				s.applyStep(n)
 			case n.RN.HasReady():
@@ -462,7 +461,7 @@ func (s *Sim) service(n *Node) bool {
 		case n.Phase == PhaseTaken:
 			s.persistEntries(n)
 		case n.Phase == PhaseEntries:
-			s.persistHS(n, true)
+			s.persistHS(n, !n.Opts.LazySync)
 		case !n.Sent:
 			s.sendMsgs(n)
 		case !n.Applied:
@@ -551,14 +550,10 @@ func (s *Sim) Crash(n *Node, partialAppend, loseUnsynced bool) {
 	}
 	s.Mon.onCrash(n)
 	d := n.Disk
-	if loseUnsynced && d.HS != nil && d.HS.GetCommit() > d.SyncedCommit {
-		hs := cloneHS(d.HS)
-		hs.Commit = new(d.SyncedCommit)
-		d.HS = hs
-		_ = d.MS.SetHardState(cloneHS(hs))
-		s.Stats.inc("crash.lost_unsynced_commit")
+	if loseUnsynced && d.loseUnsynced() {
+		s.Stats.inc("crash.lost_unsynced_hs")
 		n.LostCommitInc = n.Inc
-		s.tracef("    node %d lost un-synced commit, now %d", n.ID, d.SyncedCommit)
+		s.tracef("    node %d lost its un-synced hard state, now %v", n.ID, d.HS)
 	}
 	s.Stats.inc("crash")
 	s.crashInternal(n)
@@ -607,7 +602,7 @@ func (s *Sim) Compact(n *Node, i, j uint64) {
 		s.harnessBug("compact (%d,%d) outside (%d,%d]", i, j, lo, hi)
 	}
 	d := n.Disk
-	d.SyncedCommit = d.commit() // creating a snapshot fsyncs
+	d.syncAll() // creating a snapshot fsyncs
 	p, ok := n.SM.At[i]
 	if !ok {
 		s.harnessBug("no SM state at %d", i)
